@@ -368,22 +368,27 @@ def _is_subsequence(need, have):
     return None
 
 
-def check_ok(before, after, info):
-    """A1-A4 on a command that returned normally without any fault."""
+def check_ok(before, after, info, counterfactual=None):
+    """A1-A4 on a command that returned normally without any fault.  `counterfactual(text)` runs the same command
+    on another text in a scratch world and returns the resulting text (used to decide, causally, whether a listed
+    known-bad shape is what broke the result)."""
     v = []
     tb = ast.parse(before)
     try:
         ta = ast.parse(after)
     except SyntaxError as e:
-        # the definition the syntax error belongs to: nearest `def` at or above the reported line
-        import re
+        # Is the one-line-definition shape (F-C07-3) the cause?  Decided by a counterfactual: the same text with
+        # every `def f(...): return 1` written on two lines must convert to something that parses.
         culprit = False
-        alines = after.split("\n")
-        for ln in reversed(alines[:(e.lineno or 1)]):
-            m = re.match(r"^\s*(?:async\s+)?def\s+(\w+)\s*\(", ln)
-            if m:
-                culprit = m.group(1) in info.get("one_line_names", ())
-                break
+        if info.get("one_line_names") and counterfactual is not None:
+            import re
+            two_line = re.sub(r"(?m)^(\s*)((?:async\s+)?def\s+\w+\(.*\).*:) return 1$", r"\1\2\n\1    return 1", before)
+            if two_line != before:
+                try:
+                    ast.parse(counterfactual(two_line))
+                    culprit = True
+                except (SyntaxError, ValueError, TypeError):
+                    culprit = False
         return [{"clause": "A1", "detail": "result does not parse: %s" % e,
                  "sig": {"what": "unparsable", "one_line_def": culprit}}]
     ea = _erase(ast.parse(after), False)
@@ -575,7 +580,15 @@ def simulate(plan, tier_lines=12, per_line=False):
                 world.write_files({"m.py": before})
                 break
             if o.ok:
-                viols = check_ok(before, after, feats)
+                def cf(text, op=op):
+                    w2 = SimWorld(tag="c07cf")
+                    try:
+                        w2.write_files({"m.py": text})
+                        ops.invoke(w2, op, budget=STEP_BUDGET)
+                        return w2.read("m.py")
+                    finally:
+                        w2.destroy()
+                viols = check_ok(before, after, feats, counterfactual=cf)
                 if after != before:
                     rewrote = True
                     bump(probe, "file_rewritten")
